@@ -38,6 +38,8 @@ def compile_progs(th, sources):
         r = res.get(i)
         if r is None or not r["ok"]:
             raise Broken("corpus program %s does not compile: %s" % (n, r and r["errors"]))
+        r["prog"].setdefault("arity", [])       # parameter counts by definition order when known (TheoVMAbs)
+        r["prog"].setdefault("toklines", [])    # (file, line) pairs carrying program text when known (C08)
         progs.append(r["prog"])
     return progs
 
@@ -205,7 +207,7 @@ def validate_traces(chk, execs, progs, fields, invariants, properties=(), name="
     groups = [execs[i::batches] for i in range(batches)]
     d = rundir(chk.pid, name + "_in")
     pp = write_progs(d, progs)
-    cfg = ("SPECIFICATION TSpec\nINVARIANT %s NotAccepted\n%sCONSTRAINT Progress\nPOSTCONDITION ReportProgress\n"
+    cfg = ("SPECIFICATION TSpec\nINVARIANT %s\n%sCONSTRAINT Progress\nPOSTCONDITION Accepted\n"
            "CHECK_DEADLOCK FALSE\n") % (" ".join(invariants), ("PROPERTY " + " ".join(properties) + "\n") if properties else "")
     from concurrent.futures import ThreadPoolExecutor
 
@@ -218,7 +220,7 @@ def validate_traces(chk, execs, progs, fields, invariants, properties=(), name="
                     f.write(json.dumps(ev, separators=(",", ":")) + "\n")
         env = {"PROGS": pp, "HISTK": "0", "TRACE": tp, "FIELDS": fields}
         r = tlc("TheoVMTrace", cfg, chk.pid, "%s%d" % (name, gi), env=env, workers=1, timeout=timeout, xmx="4g")
-        if r.violated != "NotAccepted" and not r.error and not r.timed_out:
+        if r.violated is not None and not r.error and not r.timed_out:
             # rejected (or another invariant violated): repeat once, a rejection must be repeatable
             r2 = tlc("TheoVMTrace", cfg, chk.pid, "%s%d_again" % (name, gi), env=env, workers=1, timeout=timeout, xmx="4g")
             if r2.violated != r.violated:
@@ -231,7 +233,7 @@ def validate_traces(chk, execs, progs, fields, invariants, properties=(), name="
         if r.timed_out or r.error:
             raise Broken("TheoVMTrace: %s" % (r.error or "timeout"))
         chk.add("spec_states_in_validation", r.distinct)
-        if r.violated == "NotAccepted":
+        if r.violated is None:
             accepted += len(g)
             continue
         import re
@@ -241,7 +243,7 @@ def validate_traces(chk, execs, progs, fields, invariants, properties=(), name="
         os.makedirs(keep, exist_ok=True)
         kept = os.path.join(keep, os.path.basename(tp))
         shutil.copy(tp, kept)
-        if r.violated:
+        if r.violated != "postcondition":
             chk.violation("trace:inv:" + r.violated, "TheoVMTrace: invariant %s violated along a recorded execution of the real VM "
                           "(trace %s)\n%s" % (r.violated, kept, tlc_counterexample(r, 3000)),
                           {"trace_file": kept, "violated": r.violated, "fields": fields})
